@@ -231,6 +231,22 @@ def eval_shard(work, fname, timeout):
 # Go side
 # --------------------------------------------------------------------------
 
+def alt_repo():
+    """True when the checks are pointed at a scratch copy of the repository (VERIF_REPO), e.g. to try a seeded change."""
+    return os.path.realpath(REPO) != "/repo"
+
+
+def write_modfile(work):
+    """go.mod/go.sum for a harness build against VERIF_REPO: harness/go.mod with every replace target re-rooted."""
+    src = open(os.path.join(HARNESS, "go.mod")).read()
+    src = re.sub(r"=> /repo(?=[/\s])", "=> " + os.path.realpath(REPO), src)
+    mod = os.path.join(work, "alt.mod")
+    with open(mod, "w") as f:
+        f.write(src)
+    shutil.copyfile(os.path.join(HARNESS, "go.sum"), os.path.join(work, "alt.sum"))
+    return mod
+
+
 def write_go_sum():
     sums = set()
     for d, dirs, names in os.walk(REPO):
@@ -256,6 +272,8 @@ def build_harness(name, work, race=False):
         write_go_sum()
         binp = os.path.join(work, "harness" + ("-race" if race else ""))
         cmd = ["go", "build", "-tags", "verif", "-o", binp]
+        if alt_repo():
+            cmd.append("-modfile=" + write_modfile(work))
         if race:
             cmd.append("-race")
         cmd.append("./cmd/" + name)
@@ -275,7 +293,10 @@ def load_known():
     p = os.path.join(ROOT, "known_findings.json")
     if not os.path.exists(p):
         return []
-    return json.load(open(p)).get("findings", [])
+    out = json.load(open(p)).get("findings", [])
+    for frag in sorted(glob.glob(os.path.join(ROOT, "known_findings.d", "*.json"))):
+        out += json.load(open(frag)).get("findings", [])
+    return out
 
 
 def one_round(prop, cfg, work, tier, seed, scale):
@@ -338,9 +359,15 @@ def check(prop, tier, seed):
     t_start = time.time()
     cfg = json.load(open(os.path.join(ROOT, "props", prop + ".json")))
     work = os.path.join(ROOT, "work", prop)
+    evdir, repdir = os.path.join(ROOT, "evidence"), os.path.join(ROOT, "replays")
+    if alt_repo():
+        # pointed at a scratch copy of the repository: keep everything (evidence too) out of the committed places
+        tag = re.sub(r"[^A-Za-z0-9]+", "_", os.path.realpath(REPO)).strip("_")
+        work = os.path.join(ROOT, "work", "alt", tag, prop)
+        evdir = repdir = work
     os.makedirs(work, exist_ok=True)
-    os.makedirs(os.path.join(ROOT, "evidence"), exist_ok=True)
-    os.makedirs(os.path.join(ROOT, "replays"), exist_ok=True)
+    os.makedirs(evdir, exist_ok=True)
+    os.makedirs(repdir, exist_ok=True)
     known = [k for k in load_known() if k.get("property") == prop]
     known_codes = {k["code"]: k for k in known if k.get("status") == "known" and "code" in k}
 
@@ -385,7 +412,7 @@ def check(prop, tier, seed):
     for k, idxs in kn.items():
         known_hit[k] = len(idxs)
 
-    replay = os.path.join(ROOT, "replays", "%s-%s-seed%d.json" % (prop, tier, seed))
+    replay = os.path.join(repdir, "%s-%s-seed%d.json" % (prop, tier, seed))
     rep = dict(property=prop, tier=tier, seed=seed, replay_cmd="./check %s --tier %s --seed %d" % (prop, tier, seed))
     no_input = False
     if r["build_failed"]:
@@ -475,7 +502,7 @@ def check(prop, tier, seed):
     )
     ev = dict(property_id=prop, tier=tier, seed=seed, level="proof", coverage=cov,
               assumptions=cfg.get("assumptions", []), wall_s=round(wall, 2), violations=len(violations))
-    with open(os.path.join(ROOT, "evidence", prop + ".json"), "w") as f:
+    with open(os.path.join(evdir, prop + ".json"), "w") as f:
         json.dump(ev, f, indent=1, sort_keys=True)
 
     for k, n in sorted(known_hit.items()):
